@@ -11,6 +11,8 @@ C12 driver. Input lines (one answer line each):
   sweep <cutoff> <before bits> <after bits>→ `<isSweepResult> <n after>`
   setcut <c> <cutoff> <occ bits>           → `<cutoff> <len> <n>`        (`set_cutoff`)
   equalise <cutoffs> <lens>                → `<cutoffs'> <lens'>`        (tempering preamble)
+  swap <site> <cutA> <occA> <cutB> <occB>  → `<cutA'> <lenA'> <nA'> <cutB'> <lenB'> <nB'>` (raw `swap_manager_and_state`)
+  convert <nvars> <cutoff> <occ bits>      → `<cutoff> <len> <n>`        (`into_qmc`)
 -/
 def step (toks : List String) : String :=
   match toks with
@@ -32,6 +34,12 @@ def step (toks : List String) : String :=
   | ["setcut", c, cut, occ] =>
     let s := CSampler.setCutoff (parseNat c) { cutoff := parseNat cut, occ := parseBits occ }
     s!"{s.cutoff} {s.len} {s.n}"
+  | ["swap", _site, ca, oa, cb, ob] =>
+    let r := swapSamplers { cutoff := parseNat ca, occ := parseBits oa } { cutoff := parseNat cb, occ := parseBits ob }
+    s!"{r.1.cutoff} {r.1.len} {r.1.n} {r.2.cutoff} {r.2.len} {r.2.n}"
+  | ["convert", nv, c, occ] =>
+    let r := convertSampler (parseNat nv) { cutoff := parseNat c, occ := parseBits occ }
+    s!"{r.cutoff} {r.len} {r.n}"
   | ["equalise", cuts, lens] =>
     let rs := (parseNats cuts).zip (parseNats lens) |>.map fun (c, l) =>
       ({ cutoff := c, occ := List.replicate l false } : CSampler)
